@@ -24,6 +24,9 @@ pub enum Schedule {
     Single { call: usize, one_byte: bool },
     /// per call: (limit, interrupted_first) taken cyclically; limit 0 = complete
     Random(Vec<(usize, bool)>),
+    /// call number `call` accepts half of its request, the call after it fails once with
+    /// WouldBlock (a transient error AFTER a partial acceptance); everything else is complete
+    TransientError { call: usize },
 }
 
 pub struct Sink {
@@ -34,11 +37,12 @@ pub struct Sink {
     pub vectored: usize,
     sched: Schedule,
     pending_interrupt: bool,
+    fail_next: bool,
 }
 
 impl Sink {
     pub fn new(sched: Schedule) -> Sink {
-        Sink { got: vec![], calls: 0, shortened: 0, interrupted: 0, vectored: 0, sched, pending_interrupt: true }
+        Sink { got: vec![], calls: 0, shortened: 0, interrupted: 0, vectored: 0, sched, pending_interrupt: true, fail_next: false }
     }
 }
 
@@ -48,7 +52,20 @@ impl Write for Sink {
             return Ok(0);
         }
         let idx = self.calls;
+        if self.fail_next {
+            self.fail_next = false;
+            self.interrupted += 1;
+            return Err(io::Error::new(io::ErrorKind::WouldBlock, "would block"));
+        }
         let accept = match &self.sched {
+            Schedule::TransientError { call } => {
+                if idx == *call && buf.len() > 1 {
+                    self.fail_next = true;
+                    (buf.len() + 1) / 2
+                } else {
+                    buf.len()
+                }
+            }
             Schedule::Limit(k) => buf.len().min(*k),
             Schedule::Single { call, one_byte } => {
                 if idx == *call {
@@ -124,6 +141,7 @@ fn check_schedule(p: &Program, reference: &[u8], sched: Schedule, ctx: &mut Ctx,
             Schedule::Limit(_) => "limit",
             Schedule::Single { .. } => "single",
             Schedule::Random(_) => "random",
+            Schedule::TransientError { .. } => "transient-error",
         };
         return ctx.settle(
             Violation::new(
@@ -282,6 +300,12 @@ fn judge_program(prog: &Prog, ctx: &mut Ctx, t: &mut Tape, tape: &[u8]) -> Judge
     }
     if stride <= 1 {
         ctx.label("single-call-enumeration-complete");
+    }
+    // (ii b) a transient error right after a partial acceptance, at up to 200 call positions: the
+    // request must not be started over (the accepted part would arrive twice)
+    let tstride = (calls / 200).max(1);
+    for c in (0..calls).step_by(tstride) {
+        check_schedule(&p, &reference, Schedule::TransientError { call: c }, ctx, &case)?;
     }
     // (iii) random schedules
     for _ in 0..ctx.tier.pick(6, 20) {
@@ -514,7 +538,7 @@ impl Property for C08 {
         "fault_enumeration"
     }
     fn rule(&self) -> String {
-        "cases: (program families: generated / long strings / long code / wide tables = 2047..6500 globals, fields, methods, functions; counted as family:*) programs from the typed generator, programs whose single method holds 1200-5000 statements (several 4 KiB blocks of instructions) and programs with string constants of 1.1/3/9/70 KiB (with and without leading raw newlines) and several methods; for each program Program::serialize is called in-process on sinks that honour the Write contract: (i) every per-call acceptance limit k in {1,2,3,4,5,7,8,13,16,64,1000}; (ii) EVERY single write call in turn shortened to ceil(len/2) and to 1 byte (complete for programs up to 600 write calls in quick / 4000 in thorough, beyond that evenly thinned with the count reported); (iii) tape-driven schedules incl. Err(Interrupted) before accepting. oracle: the call returns an error, or the sink holds exactly the bytes of serializing into memory. Real stdout: `fml compile x.json -o f`, `> f` and `| reader` must give identical files (and equal the in-process image). non-trivial: at least one write call was actually shortened (counted by the sink); distinct by (image, schedule)".into()
+        "cases: (program families: generated / long strings / long code / wide tables = 2047..6500 globals, fields, methods, functions; counted as family:*) programs from the typed generator, programs whose single method holds 1200-5000 statements (several 4 KiB blocks of instructions) and programs with string constants of 1.1/3/9/70 KiB (with and without leading raw newlines) and several methods; for each program Program::serialize is called in-process on sinks that honour the Write contract: (i) every per-call acceptance limit k in {1,2,3,4,5,7,8,13,16,64,1000}; (ii) EVERY single write call in turn shortened to ceil(len/2) and to 1 byte (complete for programs up to 600 write calls in quick / 4000 in thorough, beyond that evenly thinned with the count reported); (ii b) at up to 200 call positions a call that accepts half of its request followed by one Err(WouldBlock); (iii) tape-driven schedules incl. Err(Interrupted) before accepting. oracle: the call returns an error, or the sink holds exactly the bytes of serializing into memory. Real stdout: `fml compile x.json -o f`, `> f` and `| reader` must give identical files (and equal the in-process image). non-trivial: at least one write call was actually shortened (counted by the sink); distinct by (image, schedule)".into()
     }
     fn assumptions(&self) -> Vec<String> {
         vec!["sinks never return Ok(0) for a non-empty buffer and never lie about the count (the usual Write contract)".into()]
